@@ -52,6 +52,8 @@ def run(rep: Report, tier: str) -> None:
 	rule_comparison_chain(rep, idx, pm, gm)
 	rule_keyword_arguments(rep, idx, pm, tm)
 	rule_group_parens(rep, pm, tm)
+	rule_range_arguments(rep, pm, tm)
+	rule_initializer_conversion(rep, pm)
 
 
 # ---- (a) precedence ---------------------------------------------------------------------------------------------------
@@ -665,3 +667,69 @@ def rule_group_parens(rep, pm, tm) -> None:
 			r.violate('on_group:return-without-parentheses', h.where, f'on_group returns `{unparse(v)[:80]}` under {[(unparse(a), p_) for a, p_ in known]}: the rendered text of the inner expression cannot tell whether it is already one parenthesised unit (`(a + 1) * (b + 2)` also starts with `(` and ends with `)`), so `((a + 1) * (b + 2)) % c` is emitted as `(a + 1) * (b + 2) % c`', unparse(v)[:100])
 		else:
 			r.skip('on_group:return-without-parentheses', h.where, f'a return that does not render the group template depends on conditions this rule does not model: {[(unparse(a), p_) for a, p_ in known]}')
+
+
+def rule_range_arguments(rep, pm, tm) -> None:
+	"""range(size) / range(begin, size) / range(begin, size, step): a counting loop rendered for `range` must take its start, bound and increment from the
+	SEPARATE arguments. The for statement (proc_for_range) and the comprehension (comp/comp_for_range) are sibling renderings of the same construct and
+	must agree: a template that pastes the whole argument text as the bound emits `i < 2, n` (comma operator) for range(2, n)."""
+	r = rep.rule('C01/range-arguments-honoured', 'every template rendered for a range() loop compares the counter with ONE separated argument (a handler-supplied variable or an element of break_separator(...)), and starts at the constant 0 only in a branch conditioned on the argument count', floor=2)
+	names = sorted({t for s_ in pm.render_sites() for t in s_.names if t.split('/')[-1].endswith('range') and t in tm.asts})
+	if not names:
+		r.skip('range-templates', (PY2CPP, 1), 'no template whose name ends in `range` is rendered by Py2Cpp')
+		return
+	for name in names:
+		for cond, parts in tm.branches(name):
+			texts = [(i, p_) for i, p_ in enumerate(parts)]
+			bound = None
+			for i, p_ in texts:
+				if p_[0] == 'text' and p_[1].rstrip().endswith('<') and i + 1 < len(parts) and parts[i + 1][0] != 'text':
+					bound = parts[i + 1]
+					break
+			key = f'{name}[{cond[:40]}]'
+			where = (tm.relpath(name), 1)
+			if bound is None:
+				r.skip(key, where, 'no `<` comparison with a variable found in this branch')
+				continue
+			src = bound[1][1] if isinstance(bound[1], tuple) else str(bound[1])
+			whole = 'break_last_block' in src and 'break_separator' not in src
+			if whole:
+				r.violate(key, where, f'{name}.j2 compares the loop counter with `{src[:80]}`, the WHOLE argument text of the range call: `[i for i in range(2, n)]` is emitted as `for (auto i = 0; i < 2, n; i++)` (comma operator; start and step ignored), while the for statement renders the same call correctly', src[:100])
+				continue
+			starts_zero = any(p_[0] == 'text' and '= 0;' in p_[1] for p_ in parts)
+			if starts_zero and 'break_' in ''.join(str(p_[1]) for p_ in parts if p_[0] != 'text') and 'length' not in cond:
+				r.violate(key, where, f'{name}.j2 starts the counter at the constant 0 in a branch that is not conditioned on the number of range() arguments ({cond}): range(begin, size) loops from 0', cond)
+				continue
+			r.ok(key, where)
+
+
+def rule_initializer_conversion(rep, pm) -> None:
+	"""`T x = T(a, b);` is rewritten to `T x{a, b};` when the template variable is_initializer is set. For a user class both call the same constructor; for
+	std::vector braces select the initializer-list constructor (`std::vector<int>(n, v)` has n elements, `std::vector<int>{n, v}` has two). The rendered
+	text `T(...)` is also what `[v] * n` renders to, so the flag may only be set when the assigned NODE is a call (a constructor call written by the user):
+	every site that sets it tests isinstance(node.value, defs.FuncCall). The assignment handlers are siblings and must agree."""
+	from vlib.match import X, atoms, conjuncts, deref, nodes
+	r = rep.rule('C01/initializer-conversion-for-calls-only', 'every render call that sets is_initializer does so only when the assigned node is a FuncCall (tested on the node, not on the rendered text)', floor=2)
+	n_sites = 0
+	for name, f in pm.methods.items():
+		fx = X(f)
+		setters: list[tuple[ast.AST, ast.AST]] = []  # (site, flag value): dict literals carrying the key and `vars[key] = value` assignments
+		for d in nodes(fx, ast.Dict):
+			for k, v in zip(d.keys, d.values):
+				if k is not None and const_str(k) == 'is_initializer':
+					setters.append((d, v))
+		for st in nodes(fx, ast.Assign):
+			for t in st.targets:
+				if isinstance(t, ast.Subscript) and const_str(t.slice) == 'is_initializer':
+					setters.append((st, st.value))
+		for site, flag in setters:
+			if isinstance(flag, ast.Constant) and flag.value is False:
+				continue
+			n_sites += 1
+			known = list(atoms(fx, site))
+			if not (isinstance(flag, ast.Constant) and flag.value is True):
+				known += conjuncts(deref(fx, flag) if isinstance(flag, ast.Name) else flag, True)
+			node_test = any(p_ and isinstance(a, ast.Call) and unparse(a.func) == 'isinstance' and len(a.args) == 2 and unparse(a.args[0]).endswith('.value') and 'FuncCall' in unparse(a.args[1]) for a, p_ in known)
+			r.check(node_test, f'{name}:is_initializer', (PY2CPP, site.lineno), f'{name} sets is_initializer under {[(unparse(a)[:60], p_) for a, p_ in known]}: without `isinstance(node.value, defs.FuncCall)` the brace conversion also hits every expression that merely RENDERS as `T(...)`: `xs = [v] * n` becomes `std::vector<int> xs{{n, v}};` (two elements instead of n)', unparse(site)[:140])
+	if n_sites == 0:
+		r.skip('is_initializer-sites', (PY2CPP, 1), 'no render call sets is_initializer')
